@@ -1,6 +1,7 @@
 package main
 
 import (
+	gohmac "crypto/hmac"
 	"crypto/sha256"
 	"crypto/sha512"
 	"fmt"
@@ -100,6 +101,20 @@ func streamMac(c *ctx) {
 		}
 		// verification: the tag itself, then truncations, extensions, bit flips, other data, other key
 		muts := [][]byte{tag, tag[:len(tag)-1], append(append([]byte{}, tag...), 0), append(append([]byte{}, tag...), tag...), {}, nil}
+		// the untruncated MAC and the tag followed by its true continuation (truncating algorithms)
+		switch alg {
+		case 4:
+			hm := gohmac.New(sha256.New, k)
+			hm.Write(msg)
+			full := hm.Sum(nil)
+			muts = append(muts, full, full[:9], full[:16])
+		case 14, 15:
+			if m16, err := macer(alg+11, k); err == nil {
+				if full, err := m16.MACCreate(msg); err == nil {
+					muts = append(muts, full, full[:9])
+				}
+			}
+		}
 		for _, bit := range []int{0, 7, len(tag)*8 - 1, c.r.intn(len(tag) * 8)} {
 			t := append([]byte{}, tag...)
 			t[bit/8] ^= 1 << (bit % 8)
